@@ -81,6 +81,21 @@ def main(tier="quick", seed=0):
     e2["ch"] = [0]  # two scripted slot choices removed
     ctx.edge(e2)
     report("S2C (cuckoo): full choice sequence conforms, a shortened one is reported as drift", d0 == 0 and t.drift > 0, f"drift {d0} -> {t.drift}")
+    # 3b. the repository's own tests as traces: accepted as recorded; one flipped answer / one dropped call is rejected
+    from .engines import repotests, scale
+
+    rt, rc, _ = repotests.record("tests/quotientfilter_test.py")
+    rt = [t for t in rt if t["kind"] == "qf"][:6]
+    for i, t in enumerate(rt):
+        t["id"] = i
+    v, _ = scale.validate(rt)
+    report("TraceScale accepts the traces recorded from tests/quotientfilter_test.py", bool(rt) and all(not f for f in v.values()), str({k: f for k, f in v.items() if f}))
+    bad = copy.deepcopy(rt)
+    for t in bad:
+        adds = [i for i, e in enumerate(t["ev"]) if e["op"] == "add"]
+        del t["ev"][adds[len(adds) // 2]]          # a call the recorder "missed": the counts no longer add up
+    v, _ = scale.validate(bad)
+    report("TraceScale rejects a repository-test trace with one call removed", bool(bad) and all(v[t["id"]] for t in bad))
     # 4. vacuity: every clause recorded in the evidence files was evaluated at least once
     vac = []
     for f in sorted(EVIDENCE.glob("C*.json")):
